@@ -16,6 +16,7 @@ LEVEL = "exploration"
 SHARDS = {"quick": 16, "thorough": 16}
 RULE = ("universes of 3-14 path-backed entities materialised as a list of Sids (entities + ancestors that have a path), as a local tree and "
         "as a server tree; 4 searches per universe from the C07 family (with '*', comma, alias, '**', filters) and the C09 family ('>'); each "
+        "search is a plain level listing, one a free-value pattern with a literal end next to an 'x' / 'x_y' sibling, one a '*' above a literal free value next to a 'y_x' sibling, one a ',' list above an open leaf level with several leaf types on disk; each "
         "search is run without and with injected junk (stray files / folders, misnamed files, desynchronised duplicate fields, sidecars, files with "
         "another type's extension in the same folder, a file named 'None' in the working directory; a junk item is only created if an independent "
         "strict path parser says it conforms to no template). FindInPaths(local) == FindInPaths(server) == FindInList == reference over the "
